@@ -311,19 +311,25 @@ GenPlaced(g) == /\ GenOrientation(g) /\ GenBoundaryIsOutline(g) /\ GenEuler(g) /
 \*   ain      every site lies in the analytic film and in no analytic hole
 \*   area2    twice the analytic area (w h; n/2 a b sin(2 pi/n)) of film minus holes
 \*   tcover   length of the analytic film outline inside each analytic terminal
+\*   nholes   the number of holes the user specified (Euler characteristic of film minus holes = 1 - nholes)
+\* An outline given vertex by vertex (possibly NON-CONVEX: C-shaped annular sectors, L / U / plus shapes, as film or hole) is its
+\* own reference: corners = all its vertices, residual = signed distance to its segments (negative inside, crossing number),
+\* area = shoelace.  A hole must be left out whatever its shape - also when its centroid lies outside the hole itself.
+AnaEuler(g) == Len(g.P) - Len(g.E) + Len(g.T) = 1 - g.ANA.nholes
+AnaCorners(g) ==
+  \A c \in 1 .. Len(g.ANA.corners) :
+     \E i \in 1 .. Len(g.P) : g.BS[i] /\ Abs(g.P[i][1] - g.ANA.corners[c][1]) <= 2 /\ Abs(g.P[i][2] - g.ANA.corners[c][2]) <= 2
+AnaBoundaryOnOutline(g) ==
+  /\ Len(g.ANA.bres) = NSum([i \in 1 .. Len(g.BS) |-> IF g.BS[i] THEN 1 ELSE 0], 1, Len(g.BS))
+  /\ \A r \in 1 .. Len(g.ANA.bres) :
+        LET e == g.ANA.bres[r] IN
+        /\ g.BS[e.i] /\ (r > 1 => g.ANA.bres[r - 1].i < e.i)
+        /\ \E k \in 1 .. Len(e.res) : g.ANA.lo[k] <= e.res[k] /\ e.res[k] <= g.ANA.hi[k]
+AnaSitesInDomain(g) == (\A i \in 1 .. Len(g.ANA.ain) : g.ANA.ain[i]) /\ Len(g.ANA.ain) = Len(g.P)
+AnaArea(g) == Abs(NSum([k \in 1 .. Len(g.T) |-> Orient(g.P, g.T[k])], 1, Len(g.T)) - g.ANA.area2) <= 2 * g.PER + 4
+AnaTerminals(g) == \A k \in 1 .. Len(g.ANA.tcover) : Abs(g.TERM[k].len - g.ANA.tcover[k]) <= 2 * g.TERM[k].maxedge + 2
 GenAnalytic(g) ==
-  g.ANA.have =>
-    /\ \A c \in 1 .. Len(g.ANA.corners) :
-          \E i \in 1 .. Len(g.P) : g.BS[i] /\ Abs(g.P[i][1] - g.ANA.corners[c][1]) <= 2 /\ Abs(g.P[i][2] - g.ANA.corners[c][2]) <= 2
-    /\ Len(g.ANA.bres) = NSum([i \in 1 .. Len(g.BS) |-> IF g.BS[i] THEN 1 ELSE 0], 1, Len(g.BS))
-    /\ \A r \in 1 .. Len(g.ANA.bres) :
-          LET e == g.ANA.bres[r] IN
-          /\ g.BS[e.i] /\ (r > 1 => g.ANA.bres[r - 1].i < e.i)
-          /\ \E k \in 1 .. Len(e.res) : g.ANA.lo[k] <= e.res[k] /\ e.res[k] <= g.ANA.hi[k]
-    /\ \A i \in 1 .. Len(g.ANA.ain) : g.ANA.ain[i]
-    /\ Len(g.ANA.ain) = Len(g.P)
-    /\ Abs(NSum([k \in 1 .. Len(g.T) |-> Orient(g.P, g.T[k])], 1, Len(g.T)) - g.ANA.area2) <= 2 * g.PER + 4
-    /\ \A k \in 1 .. Len(g.ANA.tcover) : Abs(g.TERM[k].len - g.ANA.tcover[k]) <= 2 * g.TERM[k].maxedge + 2
+  g.ANA.have => /\ AnaEuler(g) /\ AnaCorners(g) /\ AnaBoundaryOnOutline(g) /\ AnaSitesInDomain(g) /\ AnaArea(g) /\ AnaTerminals(g)
 
 GenAll(g) == /\ GenOrientation(g) /\ GenIncidence(g) /\ GenBoundaryFlags(g) /\ GenBoundaryIsOutline(g) /\ GenEuler(g)
              /\ GenTiling(g) /\ GenTrianglesInside(g) /\ GenCellAreas(g) /\ GenDualLengths(g) /\ GenEdgeVectors(g) /\ GenTerminals(g)
